@@ -12,6 +12,7 @@ import (
 	"os/exec"
 	"path/filepath"
 	"regexp"
+	"runtime/debug"
 	"sort"
 	"strings"
 	"sync"
@@ -49,12 +50,13 @@ func (f *RecFS) WriteFile(name string, content []byte) error {
 
 // Result of one in-process generation.
 type Result struct {
-	Stage string // "parse" | "ir" | "write" | "ok" : where it stopped
-	Err   error
-	Panic string
-	FS    *RecFS
-	Gen   *gen.Generator
-	Spec  *ogen.Spec
+	Stage   string // "parse" | "ir" | "write" | "ok" : where it stopped
+	Err     error
+	Panic   string
+	PanicAt string // innermost frames of the tree under test at the panic
+	FS      *RecFS
+	Gen     *gen.Generator
+	Spec    *ogen.Spec
 }
 
 func (r *Result) OK() bool { return r.Stage == "ok" }
@@ -106,6 +108,7 @@ func Generate(spec []byte, opts gen.Options, pkg string, hook func(string)) (res
 	defer func() {
 		if p := recover(); p != nil {
 			res.Panic = fmt.Sprint(p)
+			res.PanicAt = OgenFrames(string(debug.Stack()), 4)
 		}
 	}()
 	s, err := ogen.Parse(spec)
@@ -320,6 +323,7 @@ type Item struct {
 	Convenient  string   `json:"convenient,omitempty"`
 	AllowRemote bool     `json:"allow_remote,omitempty"`
 	Package     string   `json:"package,omitempty"`
+	NoWrite     bool     `json:"no_write,omitempty"` // stop after gen.NewGenerator
 }
 
 // Options builds gen.Options and returns the document bytes.
@@ -377,7 +381,36 @@ func (it *Item) Run(hook func(string)) *Result {
 	if pkg == "" {
 		pkg = "api"
 	}
+	if it.NoWrite {
+		return GenerateIR(data, o)
+	}
 	return Generate(data, o, pkg, hook)
+}
+
+// GenerateIR runs ogen.Parse + gen.NewGenerator only.
+func GenerateIR(spec []byte, opts gen.Options) (res *Result) {
+	res = &Result{Stage: "parse", FS: NewRecFS()}
+	defer func() {
+		if p := recover(); p != nil {
+			res.Panic = fmt.Sprint(p)
+			res.PanicAt = OgenFrames(string(debug.Stack()), 4)
+		}
+	}()
+	s, err := ogen.Parse(spec)
+	if err != nil {
+		res.Err = err
+		return
+	}
+	res.Spec = s
+	res.Stage = "ir"
+	g, err := gen.NewGenerator(s, opts)
+	if err != nil {
+		res.Err = err
+		return
+	}
+	res.Gen = g
+	res.Stage = "ok"
+	return
 }
 
 // CorpusItem makes an item for a corpus file with the options the repository's own
@@ -441,4 +474,22 @@ func Positions(err error) []Pos {
 		}
 	}
 	return out
+}
+
+var frameFn = regexp.MustCompile(`(?m)^(github\.com/ogen-go/ogen\S*)\([^()]*\)$`)
+
+// OgenFrames returns the first n function names of the tree under test in a stack dump.
+func OgenFrames(stack string, n int) string {
+	var out []string
+	for _, m := range frameFn.FindAllStringSubmatch(stack, -1) {
+		f := strings.TrimPrefix(m[1], "github.com/ogen-go/ogen/")
+		if len(out) > 0 && out[len(out)-1] == f {
+			continue
+		}
+		out = append(out, f)
+		if len(out) >= n {
+			break
+		}
+	}
+	return strings.Join(out, " < ")
 }
